@@ -26,6 +26,7 @@ EXPLANATION = (
     "_get_dimensionality_ratio answers 1 / None / the common ratio. Does not decide value equality, the [1,1000) range "
     "or the integer programme of to_preferred (the simple-match shortcut of to_preferred is decided: proportional exponents by cross-multiplication).")
 EXPLANATION += ' Also decided (rules added after the second round of seeded changes): no unit-rewriting helper other than the ito* forms calls an in-place conversion primitive; the base-units memo read by to_base_units is written under its read guard with the substituted units.'
+EXPLANATION += ' Also decided (round 8): _get_dimensionality_ratio answers None only where the two dimensionalities are known to differ; the in-place forms ito / ito_root_units / ito_base_units take their new magnitude from self._convert_magnitude(...).'
 
 
 
